@@ -108,7 +108,7 @@ func init() {
 	})
 	R("crypto/rand.Read", func(it *Interp, _ *ssa.Function, a []Value) Value {
 		if ok, _ := it.M.extra["allow.random"].(bool); !ok {
-			it.abort("nondeterministic source reached: crypto/rand.Read")
+			it.nondetSource("crypto/rand.Read")
 		}
 		buf := a[0].(SliceV)
 		it.touch(buf.O)
@@ -121,7 +121,7 @@ func init() {
 	// pkg/tss.RandomScalar (retry loop around crypto/rand): an arbitrary valid scalar
 	R(ModPath+"/pkg/tss.RandomScalar", func(it *Interp, _ *ssa.Function, a []Value) Value {
 		if ok, _ := it.M.extra["allow.random"].(bool); !ok {
-			it.abort("nondeterministic source reached: tss.RandomScalar")
+			it.nondetSource("tss.RandomScalar (crypto/rand)")
 		}
 		t := it.nondet("rand_scalar", "int", smt.Int)
 		c := it.C
